@@ -403,6 +403,13 @@ pub fn profile(name: &str) -> Profile {
             w_get: 8,
             ..base
         },
+        "C04" => Profile {
+            name: "C04",
+            meta: MetaMode::Safe,
+            w_import_reg: 2,
+            small_mem_pct: 25,
+            ..base
+        },
         "C12" => Profile {
             name: "C12",
             max_ops: 20,
@@ -738,6 +745,15 @@ pub struct Interp {
     pub known_hits: Vec<String>,
     pub http_requests: u64,
     pub http_errors_seen: u32,
+    /// the mutation handed to xs that has not been acknowledged yet (crash checks)
+    pub in_flight: Option<InFlight>,
+}
+
+#[derive(Clone, Debug)]
+pub enum InFlight {
+    Append(FrameSpec),
+    Import(FrameSpec),
+    Remove(u128),
 }
 
 pub fn infra(msg: impl std::fmt::Display) -> Fail {
@@ -777,14 +793,23 @@ impl Interp {
     }
 
     pub fn start_with(layout: Layout, want_follower: bool, access: Access) -> Result<Interp, Fail> {
-        let dir = StoreDir::new();
-        let opts = ExecOpts {
+        Self::start_custom(layout, want_follower, access, |_| ExecOpts {
             small_memtable: match layout {
                 Layout::Plain => None,
                 Layout::SmallMem => Some(8 * 1024),
             },
             env: vec![("XSV_CLOCK".into(), "0".into())],
-        };
+        })
+    }
+
+    pub fn start_custom(
+        _layout: Layout,
+        want_follower: bool,
+        access: Access,
+        opts_for: impl FnOnce(&std::path::Path) -> ExecOpts,
+    ) -> Result<Interp, Fail> {
+        let dir = StoreDir::new();
+        let opts = opts_for(&dir.path);
         let exec = Exec::spawn(&dir.path, &opts).map_err(|e| infra(format!("spawn: {e}")))?;
         let mut it = Interp {
             dir,
@@ -807,6 +832,7 @@ impl Interp {
             known_hits: Vec::new(),
             http_requests: 0,
             http_errors_seen: 0,
+            in_flight: None,
         };
         it.start_api()?;
         it.start_follower()?;
@@ -1014,6 +1040,7 @@ impl Interp {
         }
         let expect = self.model.append_expect(&spec);
         let is_nul = spec.topic.as_bytes().contains(&0);
+        self.in_flight = Some(InFlight::Append(spec.clone()));
         let res = if via_http {
             let sock = self.sock.clone().unwrap();
             let how = crate::httpx::AppendHow {
@@ -1033,6 +1060,9 @@ impl Interp {
         } else {
             self.ex().append(&spec, content.as_deref())
         };
+        if !matches!(res, Err(ExecErr::Died(_))) {
+            self.in_flight = None;
+        }
         self.checks += 1;
         match res {
             Ok(w) => {
@@ -1106,6 +1136,7 @@ impl Interp {
     pub fn do_import(&mut self, spec: FrameSpec) -> Check {
         let is_nul = spec.topic.as_bytes().contains(&0);
         let id = spec.id.unwrap();
+        self.in_flight = Some(InFlight::Import(spec.clone()));
         let res = if self.use_http(None) {
             let sock = self.sock.clone().unwrap();
             let out = crate::httpx::import(&sock, &spec);
@@ -1133,6 +1164,9 @@ impl Interp {
         } else {
             self.ex().import(&spec)
         };
+        if !matches!(res, Err(ExecErr::Died(_))) {
+            self.in_flight = None;
+        }
         self.checks += 1;
         match res {
             Ok(()) => {
@@ -1368,6 +1402,39 @@ impl Interp {
         if self.reg_changed_since_reopen {
             self.flags.reg_then_reopen_with_change = true;
         }
+        self.sock = None;
+        self.start_api()?;
+        self.start_follower()?;
+        Ok(())
+    }
+
+    /// The executor died (crash injection): bring the store up again in a fresh
+    /// process. Queued collector work may or may not have run.
+    pub fn reopen_after_crash(&mut self) -> Check {
+        if let Some(e) = self.exec.take() {
+            e.kill();
+        }
+        self.pending_head_append = false;
+        // (the caller settles the operation that was in flight and then calls
+        // `model.reopen()`: its collector work, too, may or may not have run)
+        self.follower = None;
+        self.in_flight = None;
+        self.opts.env.retain(|(k, _)| k != "XSV_CLOCK");
+        self.opts
+            .env
+            .push(("XSV_CLOCK".into(), self.model.clock.to_string()));
+        match Exec::spawn(&self.dir.path, &self.opts) {
+            Ok(e) => self.exec = Some(e),
+            Err(ExecErr::Panic(p)) => {
+                return Err(Fail::new(
+                    Class::Panic,
+                    format!("the store does not reopen after the crash: {p}"),
+                ))
+            }
+            Err(e) => return Err(infra(format!("respawn: {e}"))),
+        }
+        self.flags.had_reopen = true;
+        self.flags.deferred_drain = true;
         self.sock = None;
         self.start_api()?;
         self.start_follower()?;
@@ -1829,6 +1896,7 @@ impl Interp {
             Op::Remove(sel) => {
                 let id = self.resolve_id(sel);
                 let was = self.model.frames.get(&id).cloned();
+                self.in_flight = Some(InFlight::Remove(id));
                 if self.use_http(None) {
                     let sock = self.sock.clone().unwrap();
                     let out = crate::httpx::remove(&sock, id);
@@ -1837,6 +1905,7 @@ impl Interp {
                 } else {
                     must("remove", self.ex().remove(id))?;
                 }
+                self.in_flight = None;
                 self.checks += 1;
                 self.model.apply_remove(id);
                 if let Some(f) = was {
